@@ -163,10 +163,12 @@ class Instance:
         if "name" in changes:
             # another field: its own options apply
             changes.setdefault("_field_override_applied", False)
-        new_instance = replace(self, **changes)
         if is_dataclass(self.origin_type):
-            new_instance.__owner_builder = self.__self_builder
-        return new_instance
+            # the derived instance is a field of this dataclass: its type
+            # variables are bound by this class, not by the class that owns us
+            # (replace() runs __post_init__, which substitutes them)
+            changes["_Instance__owner_builder"] = self.__self_builder
+        return replace(self, **changes)
 
     def __post_init__(self) -> None:
         self._original_type = self.type
